@@ -389,7 +389,7 @@ total!(k02_total_fail, 66, 0b01010, 5); // 64 entropy bytes
 total!(k02_total_witness, 2, 0b0111, 4);
 total!(k02_total_hidden, 34, 0b0110, 4); // 32 CMR bytes
 total!(k02_total_jet, 2, 0b11, 2);
-// classes with one back reference, restricted to a unary prefix of at most 3 ones (quick)
+// classes with one back reference, restricted to a unary prefix of at most 2 ones (quick)
 macro_rules! total_k {
     ($name:ident, $nb:expr, $code:expr, $nbits:expr, $at:expr, $k:expr) => {
         #[kani::proof]
@@ -404,9 +404,9 @@ macro_rules! total_k {
         }
     };
 }
-total_k!(k02_total_unary_k3, 4, 0b001, 3, 5, 3); // injl injr take drop, reference < 2^16
-total_k!(k02_total_disconnect1_k3, 4, 0b01011, 5, 5, 3);
-total_k!(k02_total_word_k3, 4, 0b10, 2, 2, 3); // word length field < 2^16
+total_k!(k02_total_unary_k2, 3, 0b001, 3, 5, 2); // injl injr take drop, reference < 16
+total_k!(k02_total_disconnect1_k2, 3, 0b01011, 5, 5, 2);
+total_k!(k02_total_word_k2, 3, 0b10, 2, 2, 2); // word length field < 16
 // classes with back references: the real read_natural on arbitrary bits (thorough)
 total!(k02_total_unary, 6, 0b001, 3); // injl injr take drop
 total!(k02_total_disconnect1, 6, 0b01011, 5);
